@@ -3,10 +3,14 @@
 use crate::core::*;
 use serde_json::Value;
 
+pub mod c08;
+pub mod c14;
 pub mod c20;
 
 pub fn run(id: &str, tier: Tier) -> Option<CheckResult> {
     match id {
+        "C08" => Some(c08::run(tier)),
+        "C14" => Some(c14::run(tier)),
         "C20" => Some(c20::run(tier)),
         _ => None,
     }
@@ -14,6 +18,8 @@ pub fn run(id: &str, tier: Tier) -> Option<CheckResult> {
 
 pub fn replay(id: &str, case: &Value) -> Option<Vec<Violation>> {
     match id {
+        "C08" => Some(c08::replay(case)),
+        "C14" => Some(c14::replay(case)),
         "C20" => Some(c20::replay(case)),
         _ => None,
     }
